@@ -394,6 +394,8 @@ class Monitor(object):
             verdict, how = 'bad', 'differs-from-module-bindings'
         p.count('positions_compared')
         p.count('positions_compared:' + entry)
+        if getattr(self, 'unsaved', False):
+            p.count('positions_compared(unsaved buffer)')
         if verdict == 'ok':
             p.hist('agreement', '%s:%s:%s' % (entry, kind, how))
             if how == 'other-token':
@@ -410,6 +412,9 @@ class Monitor(object):
             p.count('skipped_failure_identifier_has_site_on_non_ascii_line')
             return None
         mech = classify(orc, name, kind, P, entry, cursor, s3 if s3 is not None else claims)
+        if getattr(self, 'unsaved', False) and case.get('named_file_held', False):
+            # the same text analysed under a file name had no failure: the mechanism needs the missing file name
+            mech += '-unsaved-buffer'
         site = orc.nearest_site(name, kind, P, set(q for (k, n, q) in (s3 if s3 is not None else claims or ()) if n == name))
         what = '%s reports %s %r at %s:%d:%d where the text is %r (%s)%s%s' % (
             entry, kind, name, shown_file, P[0], P[1], orc.excerpt(P, 24), how,
@@ -422,8 +427,15 @@ class Monitor(object):
         return False
 
     # -- one text through all three entry points ---------------------------------------------------
-    def analyse(self, text, filename, project, case, shown, rng, nreads, cursors=None):
-        """-> dict of per-text numbers, or None if the text is outside what can be judged"""
+    def analyse(self, text, filename, project, case, shown, rng, nreads, cursors=None, prefer_right=False):
+        """-> dict of per-text numbers, or None if the text is outside what can be judged.
+        filename=None is the unsaved-buffer configuration: supp names the text '<string>'."""
+        self.unsaved = filename is None
+        own_file = filename if filename is not None else '<string>'
+        if self.unsaved:
+            case = dict(case)
+            case['unsaved_buffer'] = True
+            self.p.count('texts_analysed_as_unsaved_buffer(filename=None)')
         from supp.linter import lint
         from supp.assistant import location
         from supp.nast import extract_scope
@@ -437,7 +449,7 @@ class Monitor(object):
         if orc.tree is None:
             p.count('texts_skipped:not-parsable')
             return None
-        stats = {'checked': 0, 'find_kind': 0, 'loc_entries': 0, 'bad': 0}
+        stats = {'checked': 0, 'find_kind': 0, 'loc_entries': 0, 'bad': 0, 'failures': 0, 'right_of_cursor': 0}
 
         # (3) bindings enumerated for the module
         st, scope = guarded(lambda: extract_scope(Source(text, filename), project))
@@ -479,6 +491,7 @@ class Monitor(object):
                 p.count('except_bindings_checked')
             if not r:
                 stats['bad'] += 1
+                stats['failures'] += 1
 
         # (1) lint rows
         st, rows = guarded(lint, project, text, filename)
@@ -508,6 +521,7 @@ class Monitor(object):
                 p.count('positions_compared:lint')
                 c = dict(case)
                 c.update({'entry': 'lint', 'name': name, 'reported': list(P)})
+                stats['failures'] += 1
                 self.report('lint-differs-from-module-bindings',
                             'lint reports %r at %s:%d:%d, all_names has no binding of that name there' % (
                                 name, shown, P[0], P[1]), c)
@@ -515,6 +529,8 @@ class Monitor(object):
             r = self.check(orc, name, kind, P, 'lint', case, shown, claims=s3)
             if r is not None:
                 p.count('lint_rows_checked')
+            if r is False:
+                stats['failures'] += 1
 
         # (2) go-to-definition from the end of name reads
         reads = []
@@ -532,7 +548,7 @@ class Monitor(object):
         right = [rd for rd in reads if any(s['pos'][0] == rd[0] and s['pos'][1] > rd[1] and not s.get('is_except')
                                            for s in orc.by_name.get(rd[2], []))]
         if len(reads) > nreads:
-            first = rng.sample(right, min(len(right), nreads // 2))
+            first = rng.sample(right, min(len(right), nreads if prefer_right else nreads // 2))
             fs = set(first)
             rest = [rd for rd in reads if rd not in fs]
             reads = first + rng.sample(rest, min(len(rest), nreads - len(first)))
@@ -566,10 +582,15 @@ class Monitor(object):
                     p.count('location_entries_skipped:no-position')
                     continue
                 f = e.get('file')
-                if f == filename:
+                if f == own_file:
                     if P[0] == cur[0] and P[1] >= cur[1]:
                         p.count('location_entries_right_of_cursor_on_cursor_line')
+                        stats['right_of_cursor'] += 1
+                        if self.unsaved:
+                            p.count('location_entries_right_of_cursor_on_cursor_line(unsaved buffer)')
                     r = self.check(orc, obj.name, kind, P, 'location', case, shown, cursor=cur, s3=s3)
+                    if r is False:
+                        stats['failures'] += 1
                     if r is not None:
                         stats['loc_entries'] += 1
                         p.count('location_entries_checked')
@@ -588,19 +609,46 @@ class Monitor(object):
 
     @staticmethod
     def pair(objs, locs):
-        if not isinstance(locs, list) or not isinstance(objs, list) or len(objs) != len(locs):
-            return None if locs else []
-        out = []
-        for o, e in zip(objs, locs):
-            if isinstance(e, list):
-                if not isinstance(o, list) or len(o) != len(e):
-                    return None
-                out.extend(zip(o, e))
-            elif isinstance(e, dict):
-                out.append((o, e))
-            else:
+        """match the Name objects behind a location() answer with its entries, by order and shape; objects without
+        a position or a file (builtins, compiled modules) may be left out of the answer"""
+        def has_pos(o):
+            return getattr(o, 'declared_at', None) is not None and getattr(o, 'filename', None) is not None
+
+        def attempt(objs):
+            if len(objs) != len(locs):
                 return None
-        return out
+            out = []
+            for o, e in zip(objs, locs):
+                if isinstance(e, list):
+                    if not isinstance(o, list):
+                        return None
+                    if len(o) != len(e):
+                        o = [x for x in o if has_pos(x)]
+                        if len(o) != len(e):
+                            return None
+                    out.extend(zip(o, e))
+                elif isinstance(e, dict):
+                    if isinstance(o, list):
+                        return None
+                    out.append((o, e))
+                else:
+                    return None
+            return out
+        if not isinstance(locs, list) or not isinstance(objs, list):
+            return None if locs else []
+        r = attempt(objs)
+        if r is None:
+            kept = []
+            for o in objs:
+                if isinstance(o, list):
+                    if any(has_pos(x) for x in o):
+                        kept.append(o)
+                elif has_pos(o):
+                    kept.append(o)
+            r = attempt(kept)
+        if r is None and not locs:
+            return []
+        return r
 
 
 # ------------------------------------------------------------------------------------------
@@ -644,7 +692,8 @@ def _mk_project(root):
 
 
 def work_gen(arg):
-    seed, start, count, nreads = arg
+    seed, start, count, nreads = arg[:4]
+    nreads_unsaved = arg[4] if len(arg) > 4 else 10
     part = core.Part()
     mon = Monitor(part)
     root = tempfile.mkdtemp(prefix='vf-')
@@ -664,6 +713,14 @@ def work_gen(arg):
             nontrivial = bool(st and st['find_kind'] >= 2 and st['checked'] >= 4 and st['loc_entries'] >= 1 and
                               len(g['features']) >= 2)
             part.case(('gen', seed, i), nontrivial=nontrivial)
+            # the same text as an unsaved buffer (filename=None); relative imports need a file name
+            if st and not g['filename'].startswith('vfp/') and 'relative-import' not in g['features']:
+                case2 = dict(case)
+                case2['named_file_held'] = st['failures'] == 0
+                st2 = mon.analyse(g['text'], None, _mk_project(root), case2, '<string>', rng, nreads_unsaved, prefer_right=True)
+                part.case(('gen-unsaved', seed, i), nontrivial=bool(st2 and st2['right_of_cursor'] >= 1 and st2['checked'] >= 4))
+            elif st:
+                part.count('unsaved_buffer_configuration_skipped:relative-imports')
             if st and len(part.samples) < 1 and len(g['text']) < 700:
                 part.sample({'generated_text': g['text'], 'features': g['features'], 'numbers': st})
         _strip_roots(part, root)
@@ -688,6 +745,14 @@ def work_probes(arg):
             part.hist('probe_outcomes', '%s -> %s' % (label, ','.join(new) if new else ('held' if st else 'skipped')))
             part.count('probe_texts')
             part.case(('probe', label), nontrivial=bool(st and st['checked'] >= 1))
+            if st and not rel.startswith('vfp/'):
+                case2 = dict(case)
+                case2['named_file_held'] = st['failures'] == 0
+                before = dict(mon.per_mech)
+                st2 = mon.analyse(text, None, _mk_project(root), case2, '<string>', rng, nreads)
+                new = sorted(m for m, n in mon.per_mech.items() if n > before.get(m, 0))
+                part.hist('probe_outcomes', '%s [unsaved buffer] -> %s' % (label, ','.join(new) if new else ('held' if st2 else 'skipped')))
+                part.case(('probe-unsaved', label), nontrivial=bool(st2 and st2['checked'] >= 1))
         _strip_roots(part, root)
     finally:
         shutil.rmtree(root, ignore_errors=True)
@@ -770,7 +835,7 @@ def main(run):
     ngen = run.pick(480, 12000)
     per = run.pick(20, 100)
     for s in range(0, ngen, per):
-        jobs.append(['work_gen', [run.seed, s, min(per, ngen - s), nreads_gen]])
+        jobs.append(['work_gen', [run.seed, s, min(per, ngen - s), nreads_gen, run.pick(8, 12)]])
     for a, r in core.pmap('vf.props.c11:dispatch', jobs, timeout=run.pick(600, 1800)):
         if isinstance(r, dict) and ('_died' in r or '_timeout' in r or '_error' in r):
             run.inconclusive.append('worker failure on %s: %s' % (json.dumps(a)[:120], json.dumps(r)[:1500]))
@@ -802,7 +867,9 @@ def main(run):
         require=('positions_compared', 'positions_compared:all_names', 'positions_compared:lint',
                  'positions_compared:location', 'text_searched_bindings_checked(import/def/class)',
                  'location_entries_right_of_cursor_on_cursor_line', 'except_bindings_checked',
-                 'location_entries_checked_in_other_files', 'generated_texts', 'real_files'),
+                 'location_entries_checked_in_other_files', 'generated_texts', 'real_files',
+                 'positions_compared(unsaved buffer)',
+                 'location_entries_right_of_cursor_on_cursor_line(unsaved buffer)'),
         assumptions=[
             '"the text at that line and column is exactly the bound identifier" is decided on CPython tokens: the position '
             'must start a NAME token equal to the identifier; a position on ANOTHER token of the same identifier (e.g. the '
@@ -812,6 +879,9 @@ def main(run):
             'non-ASCII line is filtered out (counted)',
             'identity of a binding across entry points: every lint row and every same-file location() entry must equal a '
             '(kind, identifier, position) triple enumerated by all_names/_global_names for the unmarked text',
+            'generated texts and probes without relative imports are analysed twice: under a file name and as an unsaved '
+            'buffer (filename=None, supp names it \'<string>\'), with reads that have a binding to their right on the '
+            'same line queried first; a failure seen only in the second configuration gets the suffix -unsaved-buffer',
             'module entries of location() (SourceModule, position (1, 0)) are not bindings and are skipped; location() '
             'raising or not answering within 60 s is counted and left to C08',
         ],
@@ -827,7 +897,8 @@ def replay(run, path):
     texts = {}
     for v in data['violations']:
         c = v['case']
-        key = json.dumps([c.get('kind'), c.get('filename') or c.get('path'), c.get('text')], sort_keys=True)
+        key = json.dumps([c.get('kind'), c.get('filename') or c.get('path'), c.get('text'), bool(c.get('unsaved_buffer'))],
+                         sort_keys=True)
         t = texts.setdefault(key, {'case': c, 'cursors': []})
         if c.get('cursor') and c['cursor'] not in t['cursors']:
             t['cursors'].append(c['cursor'])
@@ -841,8 +912,9 @@ def replay(run, path):
                 G.write_tree(root, c.get('tree') or G.TREE)
                 case = dict(c)
                 case['root'] = root
-                mon.analyse(c['text'], os.path.join(root, c['filename']), _mk_project(root), case, c['filename'], rng,
-                            10 ** 6, cursors=t['cursors'])
+                unsaved = bool(c.get('unsaved_buffer'))
+                mon.analyse(c['text'], None if unsaved else os.path.join(root, c['filename']), _mk_project(root), case,
+                            '<string>' if unsaved else c['filename'], rng, 10 ** 6, cursors=t['cursors'])
                 _strip_roots(part, root)
             finally:
                 shutil.rmtree(root, ignore_errors=True)
